@@ -7,15 +7,17 @@
 // PART A (C13): RecursiveStreamCursor over the abstract stream view of units/streams.rs (`gens`, `flat`, `non_empty`, imported
 // mechanically; the NewValuesMatrix / ValuesMatrix callee contracts are imported with `//@ stub streams :: ..`).
 //   met_fold_start / met_iteration_end: the generations handed out are exactly `slices(stream, cursor)` = for each of the three
-//   matrices `non_empty(view).skip(cursor)` (skip saturating, as Iterator::skip is), every one of them non-empty, and afterwards the
-//   cursor holds the RAW generation counts; a new empty generation is opened iff the fold continues. Lemma
-//   `cursor_visits_each_value_once` (a replay harness): over met_fold_start, (appends to New, met_iteration_end)* until Exhausted,
-//   the concatenation of everything handed out equals the stream's view -- every value exactly once, in stream order -- and
-//   `new_values` is left without an empty generation, PROVIDED `new_values` has none when the fold starts (nothing is asked of
-//   previous / current values). FINDING F14 (repaired by 4f12881): met_iteration_end used to leave an empty generation behind also
-//   when it reported Exhausted, so a stream that had been folded over once broke that proviso and the next fold missed the values
-//   appended during its first round; obligation `../leaves-dense` failed then and passes now
-//   (replay/instr_findings_end_to_end.rs). What remains of the proviso is stated at the lemma.
+//   matrices `non_empty(view.skip(cursor))` (skip `cursor` generations counted WITH the empty ones, as the cursor counts them, then
+//   drop the empty ones; skip saturating, as Iterator::skip is), every one of them non-empty, and afterwards the cursor holds the
+//   RAW generation counts; a new empty generation is opened iff the fold continues. Lemma `cursor_visits_each_value_once` (a replay
+//   harness): over met_fold_start, (appends to New, met_iteration_end)* until Exhausted, the concatenation of everything handed out
+//   equals the stream's view -- every value exactly once, in stream order -- with NO requirement on empty generations anywhere.
+//   History: FINDING F14 (repaired by 4f12881): met_iteration_end left an empty generation behind also when it reported Exhausted;
+//   FINDING F14b (repaired by 181c0bf): slice_iter dropped the empty generations BEFORE skipping, so any empty generation in front
+//   of the cursor (the one F14 left, or the open generation of an enclosing fold over the same stream) made the cursor overshoot and
+//   the fold missed the values appended during its first round. With the old model the lemma needed "no empty generation in
+//   new_values when the fold starts"; obligation `../leaves-dense` failed before 4f12881 and is kept as a regression guard
+//   (replay/instr_findings_end_to_end.rs has the three end-to-end tests).
 //
 // PART B: the executors. Ghost logs as in xor.rs / control_exec.rs: `ExecutionCtx.log` has one `Ran{id, pre, res, post}` per child
 // execution, where the snapshots hold the completeness flag and the table of registered fold states; `TraceHandler` carries the
@@ -134,11 +136,12 @@ impl<T> Stream<T> {
     pub open spec fn fits(&self) -> bool {
         self.previous_values@.len() <= u32::MAX && self.current_values@.len() <= u32::MAX && self.new_values@.len() <= u32::MAX
     }
-    // what a cursor makes slice_iter yield: per matrix the NON-EMPTY generations, skipping `cursor` of them
+    // what a cursor makes slice_iter yield (since the F14b fix 181c0bf): per matrix, skip `cursor` generations -- counted with the
+    // empty ones, exactly as `cursor()` counts them --, then drop the empty ones
     pub open spec fn slices(&self, c: StreamCursor) -> vstd::seq::Seq<vstd::seq::Seq<T>> {
-        skip_sat(non_empty(self.previous_values@), c.previous_start_idx.0 as int)
-            + skip_sat(non_empty(self.current_values@), c.current_start_idx.0 as int)
-            + skip_sat(non_empty(self.new_values@), c.new_start_idx.0 as int)
+        non_empty(skip_sat(self.previous_values@, c.previous_start_idx.0 as int))
+            + non_empty(skip_sat(self.current_values@, c.current_start_idx.0 as int))
+            + non_empty(skip_sat(self.new_values@, c.new_start_idx.0 as int))
     }
     // what `cursor()` returns: the RAW generation counts
     pub open spec fn counts(&self) -> StreamCursor {
@@ -149,7 +152,8 @@ impl<T> Stream<T> {
         }
     }
     // real: stream_definition.rs:64 `previous.slice_iter(c.previous).chain(current.slice_iter(c.current)).chain(new.slice_iter(c.new))`
-    // with ValuesMatrix::slice_iter = `.iter().filter(non-empty).skip(n).map(as_ref)` (bounded native job C12.slice_iter / C12.compactify)
+    // with ValuesMatrix::slice_iter = `.iter().skip(n).filter(non-empty).map(as_ref)` (unit streams states the same per matrix:
+    // `non_empty(view.skip(n))`; bounded native job C12.compactify checks it from every cursor)
     #[verifier::external_body]
     pub fn slice_iter(&self, cursor: StreamCursor) -> (r: SliceIter<T>)
         ensures r.g@ == self.slices(cursor)
@@ -234,10 +238,12 @@ pub proof fn lemma_non_empty_dense<T>(m: vstd::seq::Seq<vstd::seq::Seq<T>>)
 pub proof fn lemma_slices_dense<T>(s: Stream<T>, c: StreamCursor)
     ensures dense(s.slices(c))
 {
-    lemma_non_empty_dense(s.previous_values@); lemma_non_empty_dense(s.current_values@); lemma_non_empty_dense(s.new_values@);
-    let a = skip_sat(non_empty(s.previous_values@), c.previous_start_idx.0 as int);
-    let b = skip_sat(non_empty(s.current_values@), c.current_start_idx.0 as int);
-    let d = skip_sat(non_empty(s.new_values@), c.new_start_idx.0 as int);
+    let a = non_empty(skip_sat(s.previous_values@, c.previous_start_idx.0 as int));
+    let b = non_empty(skip_sat(s.current_values@, c.current_start_idx.0 as int));
+    let d = non_empty(skip_sat(s.new_values@, c.new_start_idx.0 as int));
+    lemma_non_empty_dense(skip_sat(s.previous_values@, c.previous_start_idx.0 as int));
+    lemma_non_empty_dense(skip_sat(s.current_values@, c.current_start_idx.0 as int));
+    lemma_non_empty_dense(skip_sat(s.new_values@, c.new_start_idx.0 as int));
     assert forall|i: int| 0 <= i < (a + b + d).len() implies (#[trigger] (a + b + d)[i]).len() != 0 by {
         if i < a.len() { assert((a + b + d)[i] == a[i]); }
         else if i < a.len() + b.len() { assert((a + b + d)[i] == b[i - a.len()]); }
@@ -372,10 +378,10 @@ impl RecursiveStreamCursor {
             final(stream).wf(), final(stream)@ == old(stream)@,
 //@ end
 
-// C13 (was FINDING F14, repaired by 4f12881). `dense`: no empty generation -- then the raw counts `cursor()` returns and the
-// positions among the non-empty generations `slice_iter` skips agree, which is what lemma cursor_visits_each_value_once needs of
-// `new_values` when a fold starts. A fold must therefore leave `new_values` dense when it ends (the cursor reports Exhausted).
-// Before the fix met_iteration_end ended with an unconditional `add_new_empty_generation()` and this obligation failed.
+// Regression guard for FINDING F14 (repaired by 4f12881): a fold that ends (the cursor reports Exhausted) does not leave the empty
+// generation it opened behind. Before that fix met_iteration_end ended with an unconditional `add_new_empty_generation()` and this
+// obligation failed. Since the F14b fix (181c0bf: slice_iter skips before it filters) lemma cursor_visits_each_value_once no longer
+// NEEDS `new_values` to be free of empty generations, so this is hygiene (no generation leaks per fold), not a correctness premise.
 // (no canary of its own: same body and precondition as the obligation above, which has one)
 //@ lift air/src/execution_step/value_types/stream/recursive_stream.rs :: impl RecursiveStreamCursor :: fn met_iteration_end
 //@ name RecursiveStreamCursor::met_iteration_end/leaves-dense
@@ -466,28 +472,37 @@ pub proof fn lemma_non_empty_flat<T>(m: vstd::seq::Seq<vstd::seq::Seq<T>>)
     }
 }
 
+pub proof fn lemma_non_empty_single<T>(g: vstd::seq::Seq<T>)
+    ensures non_empty(vstd::seq::Seq::<vstd::seq::Seq<T>>::empty().push(g))
+        == (if g.len() != 0 { vstd::seq::Seq::<vstd::seq::Seq<T>>::empty().push(g) } else { vstd::seq::Seq::<vstd::seq::Seq<T>>::empty() }),
+        non_empty(vstd::seq::Seq::<vstd::seq::Seq<T>>::empty()) == vstd::seq::Seq::<vstd::seq::Seq<T>>::empty(),
+{
+    let e = vstd::seq::Seq::<vstd::seq::Seq<T>>::empty();
+    let p = |g: vstd::seq::Seq<T>| g.len() != 0;
+    assert(e.filter(p).len() == 0) by { reveal(vstd::seq::Seq::filter); }
+    assert(e.filter(p) =~= e);
+    lemma_non_empty_push(e, g);
+}
+
 // C13: a fold over a stream visits every value exactly once, including the values appended while it runs.
 // Over  met_fold_start, (the body appends to New, met_iteration_end)*  until the cursor reports Exhausted, the generations handed
 // out, concatenated in the order they were handed out, ARE the stream as the peer sees it at the end (`Stream::view`): nothing is
-// handed out twice, nothing is left out, order kept; every handed-out generation is non-empty; and the stream is left with no empty
-// generation in `new_values` again. Replaces the bounded native job C13.cursor.
-// WHAT REMAINS of the precondition after the F14 fix: `new_values` has no empty generation when the fold starts. Nothing is asked of
-// previous_values / current_values any more (padding generations from data are harmless: the fold does not append to them). The
-// remaining clause is (a) established by Stream::new, (b) kept by every append to New (add_to_last_generation pushes onto the last
-// generation), (c) re-established by every finished fold (`../leaves-dense`, this lemma's last postcondition) -- so it holds whenever
-// no fold over the same stream is in progress. It does NOT hold for a fold that starts INSIDE an iteration of another fold over
-// the same stream while that fold's open generation is still empty: the inner fold then misses the values appended during its own
-// first round (the outer fold still visits them). The clause is necessary: without it the lemma is false.
+// handed out twice, nothing is left out, order kept; every handed-out generation is non-empty. Replaces the bounded native job
+// C13.cursor.
+// NO requirement on empty generations anywhere (since the F14b fix 181c0bf, slice_iter skips `cursor` generations BEFORE it drops
+// the empty ones, so the raw counts the cursor holds and the positions slice_iter skips agree by construction): the stream may hold
+// padding generations from data in previous / current values, the open generation of an enclosing fold over the same stream, or
+// (before 4f12881) the generation a finished fold left behind. What is left in `requires` are the type invariants only: `wf` (the
+// size counters, unit streams) and the memory bound "fewer than 2^32 generations per matrix, with room for the harness's rounds".
 //@ lemma cursor_visits_each_value_once props C13
 pub fn cursor_visits_each_value_once(stream: &mut Stream<ValueAggregate>, fuel: u32) -> (r: (bool, Ghost<vstd::seq::Seq<vstd::seq::Seq<ValueAggregate>>>))
     requires old(stream).wf(),
-        dense(old(stream).new_values@),      // nothing is asked of previous_values / current_values: they may hold empty generations
         old(stream).previous_values@.len() <= u32::MAX, old(stream).current_values@.len() <= u32::MAX,
         old(stream).new_values@.len() + fuel + 1 <= u32::MAX,
     ensures
         final(stream).previous_values == old(stream).previous_values, final(stream).current_values == old(stream).current_values,
         // r.0: the cursor reported Exhausted (the fold ended) before the harness ran out of rounds
-        r.0 ==> flat(r.1@) == final(stream)@ && dense(r.1@) && dense(final(stream).new_values@),
+        r.0 ==> flat(r.1@) == final(stream)@ && dense(r.1@),
 {
     let ghost p = stream.previous_values@;
     let ghost c = stream.current_values@;
@@ -496,18 +511,13 @@ pub fn cursor_visits_each_value_once(stream: &mut Stream<ValueAggregate>, fuel: 
     let mut state = cursor.met_fold_start(stream);
     let ghost mut all = handed(state);
     proof {
-        lemma_non_empty_flat(p); lemma_non_empty_flat(c); lemma_non_empty_id(n0);
-        assert(skip_sat(non_empty(p), 0) =~= non_empty(p)); assert(skip_sat(non_empty(c), 0) =~= non_empty(c)); assert(skip_sat(n0, 0) =~= n0);
-        assert(all == non_empty(p) + non_empty(c) + n0);
-        lemma_flat_concat(non_empty(p) + non_empty(c), n0);
+        lemma_non_empty_flat(p); lemma_non_empty_flat(c); lemma_non_empty_flat(n0);
+        assert(skip_sat(p, 0) =~= p); assert(skip_sat(c, 0) =~= c); assert(skip_sat(n0, 0) =~= n0);
+        assert(all == non_empty(p) + non_empty(c) + non_empty(n0));
+        lemma_flat_concat(non_empty(p) + non_empty(c), non_empty(n0));
         lemma_flat_concat(non_empty(p), non_empty(c));
     }
     if !state.should_continue() {
-        proof {
-            assert(all.len() == 0);
-            assert(n0.len() == 0);
-            assert(flat(n0) =~= vstd::seq::Seq::<ValueAggregate>::empty());
-        }
         return (true, Ghost(all));
     }
     proof {
@@ -521,40 +531,37 @@ pub fn cursor_visits_each_value_once(stream: &mut Stream<ValueAggregate>, fuel: 
             p.len() <= u32::MAX, c.len() <= u32::MAX,
             stream.new_values@.len() + fuel <= u32::MAX,
             dense(all),
-            // while the fold continues: one open (still empty) generation after the closed, dense ones; the cursor stands at it
-            state is Continue ==> stream.new_values@.len() > 0 && dense(stream.new_values@.drop_last()) && stream.new_values@.last().len() == 0
+            // while the fold continues: one open (still empty) generation after the closed ones; the cursor stands at it
+            state is Continue ==> stream.new_values@.len() > 0 && stream.new_values@.last().len() == 0
                 && cursor.cursor == (StreamCursor { new_start_idx: GenerationIdx((stream.new_values@.len() - 1) as u32), ..stream.counts() })
                 && flat(all) == flat(p) + flat(c) + flat(stream.new_values@.drop_last()),
-            // when it is over: everything was handed out and no empty generation is left behind
-            !(state is Continue) ==> flat(all) == stream@ && dense(stream.new_values@),
+            // when it is over: everything was handed out
+            !(state is Continue) ==> flat(all) == stream@,
         decreases fuel
     {
         fold_body_appends_to_new(stream);
-        let ghost nn = stream.new_values@.drop_last();       // the closed generations: dense
+        let ghost nn = stream.new_values@.drop_last();       // the closed generations (empty ones among them are fine)
         let ghost last = stream.new_values@.last();          // what this round appended
         let ghost all0 = all;
+        let ghost e = vstd::seq::Seq::<vstd::seq::Seq<ValueAggregate>>::empty();
         proof {
             assert(stream.new_values@ =~= nn.push(last));
-            lemma_non_empty_flat(p); lemma_non_empty_flat(c); lemma_non_empty_id(nn);
-            lemma_non_empty_push(nn, last);
+            // the cursor sits at the raw length of prev / current: nothing left to skip to; in new it sits at the open generation
+            assert(skip_sat(p, p.len() as int) =~= e); assert(skip_sat(c, c.len() as int) =~= e);
+            assert(skip_sat(nn.push(last), nn.len() as int) =~= e.push(last));
+            lemma_non_empty_single(last);
         }
         state = cursor.met_iteration_end(stream);
         proof {
-            // prev / current: the cursor sits at their raw length >= the number of their non-empty generations: nothing;
-            // new: exactly this round's generation, if any
             let h = handed(state);
-            assert(h =~= (if last.len() != 0 { vstd::seq::Seq::empty().push(last) } else { vstd::seq::Seq::empty() })) by {
-                if last.len() != 0 {
-                    assert(skip_sat(nn.push(last), nn.len() as int) =~= vstd::seq::Seq::empty().push(last));
-                }
-            }
+            assert(h =~= (if last.len() != 0 { e.push(last) } else { e }));
             all = all0 + h;
             lemma_flat_concat(all0, h);
             let n1 = without_empty_tail(nn.push(last));
             if last.len() != 0 {
                 assert(n1 == nn.push(last));
-                lemma_flat_push(vstd::seq::Seq::<vstd::seq::Seq<ValueAggregate>>::empty(), last);
-                assert(flat(vstd::seq::Seq::<vstd::seq::Seq<ValueAggregate>>::empty()) =~= vstd::seq::Seq::<ValueAggregate>::empty());
+                lemma_flat_push(e, last);
+                assert(flat(e) =~= vstd::seq::Seq::<ValueAggregate>::empty());
                 assert(flat(h) =~= last);
                 lemma_flat_push(nn, last);
                 assert((flat(p) + flat(c) + flat(nn)) + last =~= flat(p) + flat(c) + (flat(nn) + last));
